@@ -42,6 +42,8 @@ structure Mon where
   corrupted : Bool := false                        -- a `rowmut` happened in this case
   faulted : Bool := false                          -- some operation of this case ran with injected faults
   storeFaulted : Bool := false                     -- … and one of them hit (or may have hit) a metastore WRITE
+  ikSeen : List (Nat × String) := []                -- (cache owner, IK key) pairs ever brought into that owner's IK cache
+  quiet : List (Nat × Nat) := []                    -- (owner, partition) with a clean successful encrypt since the clock last moved
   closedS : List Nat := []                          -- sessions closed so far
   closedF : List Nat := []                          -- factories closed so far
   anyRevoke : Bool := false
@@ -192,6 +194,22 @@ def Mon.observe (m : Mon) (ws : List String) (fields : List (String × String)) 
   -- through cleanly; faults on reads, the KMS, the AEAD or the allocator are no excuse for using an
   -- expired key
   let m := if !noFault && cs.any (fun c => c.startsWith "S:" && !c.endsWith ":1") then { m with storeFaulted := true } else m
+  -- IK keys entering the IK cache of the operation's owner (loads, stores); the clock, a revocation, a
+  -- row mutation or a fault end the "quiet" period
+  let m := match ws.head? with
+    | some "enc" | some "dec" =>
+      let sN := ((ws.getD 1 "").toNat?).getD 0
+      let (f, _) := m.sess.getD sN (0, 0)
+      let pol := m.facs.getD f default
+      let owner : Nat := if pol.sharedIK then 1000000 + f else sN
+      let keys := cs.filterMap fun c =>
+        if c.startsWith "L:ik" || c.startsWith "S:ik" then ((c.splitOn ":").getD 1 "") |> some
+        else if c.startsWith "LL:ik" then (match c.splitOn ":" with | [_, id, st] => if st == "-" then none else some s!"{id}@{st}" | _ => none)
+        else none
+      let seen := keys.foldl (fun acc k => if acc.contains (owner, k) then acc else (owner, k) :: acc) m.ikSeen
+      { m with ikSeen := seen, quiet := if noFault then m.quiet else [] }
+    | some "adv" | some "rev" | some "rowmut" => { m with quiet := [] }
+    | _ => m
   let (m, c03) := checkCalls m cs
   let fails0 := fails0 ++ c03.map fun e => ("C03", e)
   let (m, c20) :=
@@ -254,7 +272,17 @@ def Mon.observe (m : Mon) (ws : List String) (fields : List (String × String)) 
         if pw.take 2 == ws.take 2 && noFault && p.cacheIK && !m.anyRevoke && !m.corrupted && cs.any isExternal then
           fails ++ [("C20", "repeating a successful encrypt immediately still called the metastore / KMS")] else fails
       | _ => fails
+    -- C20, working set fits: an owner's IK cache that never had to hold more distinct keys than its capacity
+    -- has never evicted, so a partition it already served since the clock last moved is served silently
+    let fits : Bool := match p.ikKind with
+      | none => true
+      | some (_, cap) => ((m.ikSeen.filter (·.1 == owner)).length ≤ cap)
+    let fails := if noFault && p.cacheIK && fits && m.quiet.contains (owner, part) && !m.corrupted && !m.faulted && !m.anyRevoke &&
+                    cs.any (fun c => c.startsWith s!"LL:{ikId}:" || c.startsWith s!"L:{ikId}@") then
+        fails ++ [("C20", s!"the intermediate key of partition {part} was read from the metastore again although this cache served it since the clock last moved and its working set fits")]
+      else fails
     ({ m' with recs := m.recs.push { pay := argN 2, part := part, ik := ik },
+               quiet := if noFault && !m.quiet.contains (owner, part) then (owner, part) :: m.quiet else m.quiet,
                newest := ((owner, ikId), ik) :: m.newest.filter (fun (k, _) => k != (owner, ikId)),
                fills := ((owner, ikId, ik), fillKind) :: m.fills.filter (fun (k, _) => k != (owner, ikId, ik)) }, fails)
   | some "dec" =>
